@@ -214,6 +214,30 @@ def _stats():
     return c.stats
 
 
+_G0 = z3.Int("generic!i")
+
+
+def stable_key(a):
+    """structural key of an array argument: two arrays with identical length and element terms at a
+    generic index are equal, so an uninterpreted statistic applied to them must return the same value"""
+    if isinstance(a, MArr):
+        mk = a.m(_G0)
+        return ("m", stable_key(a._data), mk.sexpr() if alg.is_sym(mk) else str(mk))
+    n = a.n
+    p = a.elem(_G0)
+    return (n.sexpr() if alg.is_sym(n) else str(n), a.kind) + tuple(x.sexpr() if alg.is_sym(x) else str(x) for x in p)
+
+
+def memo_symbol(key, make):
+    """one symbol per (statistic, arguments) within a run: statistics are functions of their arguments"""
+    c = cur()
+    if not hasattr(c, "fun_memo"):
+        c.fun_memo = {}
+    if key not in c.fun_memo:
+        c.fun_memo[key] = make()
+    return c.fun_memo[key]
+
+
 _SPEC_COUNTER = [0]
 
 
@@ -266,14 +290,18 @@ def np_mean(a):
         return SNum(alg.conc(sum(_fr(p[1]) for p in cv) / len(cv)), False, "f")
     c = cur()
     c.use("numpy.mean")
-    v = c.fresh("mean", z3.RealSort())
+    v = memo_symbol(("mean", stable_key(a)), lambda: c.fresh("mean", z3.RealSort()))
     g = a.getter()
     if a.kind == "f":
         hasnan = M.reduce_any(Arr(a.n, "b", lambda i: (False, g(i)[0])), None).t
     else:
         hasnan = False
     nan = alg.or_(alg.eq(a.n, 0), hasnan)
-    s = SNum(v, nan, "f")
+    if a.kind in ("m", "M"):
+        vi = memo_symbol(("mean-int", stable_key(a)), lambda: c.fresh("meant", z3.IntSort()))
+        s = SNum(vi, nan, a.kind, a.unit)
+    else:
+        s = SNum(v, nan, "f")
     _stats().append(Stat("mean", a.copy(), s))
     return s
 
@@ -296,7 +324,7 @@ def np_median(a):
     c = cur()
     c.use("numpy.median")
     sort = z3.IntSort() if a.kind != "f" else z3.RealSort()
-    v = c.fresh("median", sort)
+    v = memo_symbol(("median", stable_key(a)), lambda: c.fresh("median", sort))
     g = a.getter()
     n = a.n
     # facts: some element <= m and some element >= m; m is bounded by every element pairwise only
@@ -329,7 +357,7 @@ def _spread(name, a, ddof_note):
                 raise ValueError("zero-size array to reduction operation maximum which has no identity")
             _stats().append(Stat(name, a.copy(), masked, ddof_note))
             return masked
-        v = c.fresh(name, z3.RealSort())
+        v = memo_symbol((name, stable_key(a)), lambda: c.fresh(name, z3.RealSort()))
         c.assume(alg.ge(v, 0))
         s = SNum(v, False, "f")
         _stats().append(Stat(name, a.copy(), s, ddof_note))
@@ -338,7 +366,7 @@ def _spread(name, a, ddof_note):
     if name == "ptp":
         cur().ensure(alg.gt(a.n, 0), ValueError, "zero-size array to reduction operation maximum which has no identity")
     g = a.getter()
-    v = c.fresh(name, z3.RealSort())
+    v = memo_symbol((name, stable_key(a)), lambda: c.fresh(name, z3.RealSort()))
     c.assume(alg.ge(v, 0))
     nan = alg.eq(a.n, 0)
     if a.kind == "f":
@@ -423,6 +451,8 @@ def as_strided(a, shape=None, strides=None):
         inb = M.in_range(j, n)
         if inb is False:
             return (oobn(alg.lift(j)), oob(alg.lift(j)))
+        if inb is True:
+            return g(j)
         e = g(j)
         # out-of-buffer reads see arbitrary memory
         return (alg.ite(inb, e[0], oobn(alg.lift(j))), alg.ite(inb, e[1], oob(alg.lift(j))))
@@ -485,7 +515,7 @@ def _row_reduce(name, w, axis):
         ctx.aux.append(alg.lift(alg.implies(alg.not_(allm), alg.and_(present(wit), alg.eq(v, e(r, wit)[1])))))
         bound = (lambda cc: alg.le(v, e(r, cc)[1])) if name == "min" else (lambda cc: alg.ge(v, e(r, cc)[1]))
         body = lambda cc: alg.implies(present(cc), alg.and_(alg.not_(allm), bound(cc)))  # noqa: E731
-        ctx.add_fact(name + "-bound", body)
+        ctx.add_fact(name + "-bound", body, auto=False)  # column-indexed: instantiated by contract hints
         ctx.reductions.append({"name": name, "row": r, "value": v, "allmasked": allm, "wit": wit, "cols": cols, "bound": body})
         memo[k] = (v, allm)
         return memo[k]
@@ -657,8 +687,31 @@ class _MaskError(Exception):
 M.MaskError = _MaskError
 
 
+class _ModelNS:
+    """namespace of a library model: an attribute that is not modelled makes the function
+    *undecided* (Unsupported), it is never silently wrong"""
+
+    def __init__(self, name):
+        object.__setattr__(self, "_ns_name", name)
+
+    def __getattr__(self, attr):
+        if attr.startswith("__"):
+            raise AttributeError(attr)
+        c = cur() if _active() else None
+        msg = "%s.%s is not modelled" % (object.__getattribute__(self, "_ns_name"), attr)
+        if c is not None:
+            c.unsupported = msg
+        raise Unsupported(msg)
+
+
+def _active():
+    from .ctx import active
+
+    return active()
+
+
 def build_np():
-    np = types.SimpleNamespace()
+    np = _ModelNS("numpy")
     np.__pyvc_model__ = True
     np.float64 = M.float64
     np.floating = M.floating
@@ -697,7 +750,7 @@ def build_np():
     np.vectorize = VectorizedFn
     np.errstate = M._null_cm
     np.lib = types.SimpleNamespace(stride_tricks=types.SimpleNamespace(as_strided=as_strided))
-    ma = types.SimpleNamespace()
+    ma = _ModelNS("numpy.ma")
     ma.masked = masked
     ma.nomask = M.NoMask
     ma.MaskedArray = ma_array
@@ -711,6 +764,9 @@ def build_np():
     ma.empty_like = ma_empty_like
     ma.diff = ma_diff
     ma.filled = M.ma_filled
+    ma.getdata = lambda a: M.getdata(a) if isinstance(a, MArr) else M._as_arr(a, copy=False)
+    ma.getmaskarray = lambda a: (a.maskarr() if isinstance(a, MArr) else M.const_arr(M._as_arr(a, copy=False).n, "b", (False, False)).copy())
+    ma.getmask = lambda a: (a.mask if isinstance(a, MArr) else M.NoMask)
     ma.core = types.SimpleNamespace(MaskedArray=MArr)
     np.ma = ma
     return np
